@@ -37,7 +37,13 @@ def arc_from_theta(edge_point_1: PointType, edge_point_2: PointType, angle: floa
 
     center = pm - length * axis / 2 - rm * mag_chord / 2 / np.tan(angle / 2)
 
-    return f.arc_mid(axis, center, edge_point_1, edge_point_2)
+    arc_point = f.arc_mid(axis, center, edge_point_1, edge_point_2)
+
+    if abs(angle) > np.pi:
+        # arc_mid takes the shorter way around
+        arc_point = 2 * center - arc_point
+
+    return arc_point
 
 
 @dataclasses.dataclass
